@@ -20,7 +20,7 @@ def bounded(check, tier):
               "empty/run-less) x every 0<=start<=end<=len+2 and end omitted; append of every new value; oracle = sidecar "
               "contract of splice/append at run time, operand unchanged, result memo-coherent" % (4 if deep else 3),
               bound="runs<=%d, run length<=2, new<=2 runs" % (4 if deep else 3))
-    news = [mk(l, 65, 4) for l in layouts(2, 2)] + ["", "X", "XY", fmtstr("")]
+    news = [mk(l, 65, 4) for l in layouts(2, 2)] + ["", "X", "XY", fmtstr(""), "\x1b[31mq"]
     lay = [(lens, False) for lens in layouts(4 if deep else 3, 2)]
     # the same display cut into runs differently (uniform attributes), after the one-run value was used
     lay += [(lens, True) for lens in layouts(3, 2) if len(lens) >= 2 and sum(lens) > 0]
